@@ -36,7 +36,9 @@ impl CsvWriter {
         match &self.mode {
             WriteMode::Directory(out_dir) => {
                 let file_name = match out_type {
-                    OutputType::Transactions => format!("{name}.csv"),
+                    OutputType::Transactions => {
+                        format!("{}.csv", file_name_for(name))
+                    }
                     OutputType::AggregateGains => "aggregate-gains.csv".to_string(),
                     OutputType::Costs => {
                         format!(
@@ -57,6 +59,15 @@ impl CsvWriter {
             WriteMode::Writer(write_handle) => Ok(Box::new(write_handle.clone())),
         }
     }
+}
+
+/// A security's name is used as its file name as it is, except for the characters
+/// that cannot be part of one: a ticker like BRK/B would otherwise name a file in
+/// a directory that does not exist, and the failure to create it would stop the
+/// whole run before the other securities are written. Percent-encoded, so that
+/// two different names never share a file.
+fn file_name_for(name: &str) -> String {
+    name.replace('%', "%25").replace('/', "%2F").replace('\\', "%5C")
 }
 
 impl AcbWriter for CsvWriter {
